@@ -49,6 +49,46 @@ def run(ctx):
                 return "%d bytes fed (<= %d) reported as too large under option setting %d" % (total, gc.MAX, o)
         return None
     ctx.correspond("TOO-LARGE", big, hb, db, flags=fl, predicate=big_pred, coq_sample=2, nontrivial=lambda c, i: True)
+    # the option lattice on generator states with LARGE bucket counters (where the two Q-ratio arithmetics differ, where products
+    # wrap): all 32 option settings on each injected state; more permissive options never turn Ok into Err nor change an accepted hash
+    rng2 = ctx.rng.fork("injopts")
+    inj = []
+    for v in VNAMES:
+        ck = suites.VARIANTS[v][0]
+        nb = suites.VARIANTS[v][1]
+        for _ in range(24 if ctx.tier == "quick" else 400):
+            base = rng2.choice([2 ** 18 + 1, 300031, 671089, 2 ** 24 - 2, 2 ** 24 + 1, 42949672, 42949673, 2 ** 31 - 3, 2 ** 32 - 300, 1000, 213022])
+            kind = rng2.below(4)
+            if kind == 0:
+                bk = [(base + rng2.below(5)) % 2 ** 32 for _ in range(256)]
+            elif kind == 1:
+                bk = [rng2.below(2 ** 32) for _ in range(256)]
+            elif kind == 2:       # q2*100 just below a multiple of q3
+                q3 = base
+                k = 1 + rng2.below(99)
+                q2 = (k * q3 - 1 - rng2.below(3)) // 100
+                q1 = rng2.below(max(1, q2))
+                vals = [q1, q2, q3, q3 + 1 + rng2.below(1000)]
+                bk = [vals[(4 * j) // nb] for j in range(nb)] + [0] * (256 - nb)
+            else:                 # about half / a quarter of the buckets empty
+                nz = rng2.choice([nb // 4 - 1, nb // 4, nb // 4 + 1, nb // 2 - 1, nb // 2, nb // 2 + 1, nb - 1])
+                bk = [(1 + rng2.below(base)) if j < nz else 0 for j in range(nb)] + [0] * (256 - nb)
+            bk = [x % 2 ** 32 for x in bk]
+            ops = " ".join("f %d" % o for o in range(32))
+            inj.append("hist %s inject %s %d %s %s 4 %s" % (v, hx(suites.le32s(bk)), 10 ** 6 + rng2.below(10 ** 9), hx(rng2.bytes(ck)),
+                                                             hx(rng2.bytes(4)), ops))
+
+    def lattice_pred(c, i, m):
+        outs = i.split(" | ")
+        if len(outs) != 32:
+            return "finalize did not return normally under some option setting: `%s`" % i[:80]
+        for a in range(32):
+            for b in range(32):
+                if a != b and gc.opts_le(a, b) and outs[a].startswith("ok") and outs[b] != outs[a]:
+                    return ("option setting %d accepts with `%s`; the more permissive setting %d gives `%s`: more permissive options "
+                            "must neither reject nor change the hash" % (a, outs[a][:40], b, outs[b][:40]))
+        return None
+    ctx.correspond("INJECT-OPTIONS", inj, hb, db, flags=fl, predicate=lattice_pred, coq_sample=2, nontrivial=lambda c, i: "ok" in i)
     lim = []
     for v in VNAMES:
         lim.append("limits %s" % v)
